@@ -36,6 +36,24 @@ def need_any(ctx, rule: str, qual: str, title: str, alternatives: list[list[str]
     return None
 
 
+def need_exact(ctx, rule: str, qual: str, title: str, alternatives: list[list[str]], why: str = "", **kw):
+    """the canonical body of `qual` IS one of the statement lists (one for one, nothing before, around or after them; asserts aside):
+    for short methods whose whole effect the rule states -- a guard around the statement, a parameter rebound before it or a second
+    statement after it changes what the method does for some argument"""
+    from .tmpl import tseq
+    fn = ctx.cfn(qual, **kw)
+    orig, m, _ = ctx.locate(qual)
+    body = [s for s in fn.body if not isinstance(s, (ast.Assert, ast.Pass))]
+    for templates in alternatives:
+        e = tseq(body, templates)
+        if e is not None:
+            ctx.ok(rule, title, "; ".join(templates)[:300])
+            return e
+    ctx.fail(rule, title, m.path, orig.lineno, (why + " " if why else "") + f"[{qual.split('.')[-1]} is not exactly `{'; '.join(alternatives[0])}`]", orig,
+             expected="; ".join(alternatives[0]), found=" ; ".join(u(s) for s in fn.body)[:400])
+    return None
+
+
 def absent(ctx, rule: str, qual: str, title: str, templates: list[str], why: str = "", **kw):
     fn = ctx.cfn(qual, **kw)
     orig, m, _ = ctx.locate(qual)
